@@ -13,5 +13,6 @@ void vp_assert(bool c, const char* label);
 void vp_reach(const char* tag);
 void vp_observe(uint64_t v);                             // folded into the differential digest (concrete mode only)
 int vp_is_symbolic(void);
+int vp_fork_int(int v);                                   // engine: fork on every feasible value and continue with it concrete; native: identity
 }
 static inline bool vp_bool(const char* name) { return vp_int(name, 0, 1) != 0; }
